@@ -308,6 +308,16 @@ class Canon(ast.NodeTransformer):
                 return ast.copy_location(new, n)
         return n
 
+    def visit_AnnAssign(self, n):
+        self.generic_visit(n)
+        # x: T = v  ->  x = v      (the annotation of a local or of an attribute target has no effect on what is computed; class-level
+        # annotated assignments are left alone: dataclass fields are declared by them)
+        if n.value is not None and isinstance(n.target, ast.Name | ast.Attribute) and self._in_function:
+            return self.visit_Assign(ast.copy_location(ast.Assign(targets=[n.target], value=n.value), n))
+        return n
+
+    _in_function = 0
+
     def visit_Assign(self, n):
         self.generic_visit(n)
         # a, b = x, y  ->  a = x ; b = y     when no target is read by a value (not a swap) and the values are simple
@@ -343,7 +353,11 @@ class Canon(ast.NodeTransformer):
         return n
 
     def visit_FunctionDef(self, n):
-        self.generic_visit(n)
+        self._in_function += 1
+        try:
+            self.generic_visit(n)
+        finally:
+            self._in_function -= 1
         # for i, x in enumerate(xs[, k]):  ->  for x in xs:      when the index is never read in the function
         loads = {x.id for x in ast.walk(n) if isinstance(x, ast.Name) and isinstance(x.ctx, ast.Load)}
         for f in ast.walk(n):
@@ -716,6 +730,50 @@ class Repo:
                     n._func = f
             f.node._func_self = f
         self._propagate_new_aliases()
+        self._positionalise_new_keywords()
+
+    def _positionalise_new_keywords(self):
+        """`f(a, y=b)` -> `f(a, b)` for an argument passed by keyword where the pinned tree passes it by position (baseline key
+        "call_keywords" lists the (caller, callee name, keyword) triples the pinned tree has): the callee resolves to one function
+        of the package, `y` names the next positional parameter and is the first keyword of the call, so the order in which the
+        arguments are evaluated stays the same."""
+        import json as _json
+        from pathlib import Path as _P
+
+        try:
+            base = _json.loads(_P(__file__).with_name("baseline_functions.json").read_text()).get("call_keywords")
+        except Exception:
+            base = None
+        self.positionalised = []
+        if base is None:
+            return
+        base = {tuple(x) for x in base}
+        for f in list(self.functions.values()):
+            for call in [n for n in walk_shallow(f.node) if isinstance(n, ast.Call) and n.keywords]:
+                cname = call.func.attr if isinstance(call.func, ast.Attribute) else call.func.id if isinstance(call.func, ast.Name) else None
+                if cname is None or any(isinstance(a, ast.Starred) for a in call.args) or any(k.arg is None for k in call.keywords):
+                    continue
+                try:
+                    targets, _, _ = self.resolve_call(call, f)
+                except AnalysisError:
+                    continue
+                # constructor calls resolve to __init__ and __new__: the parameter list is __init__'s
+                targets = [t for t in targets if t.name != "__new__"] or targets
+                if len(targets) != 1:
+                    continue
+                t = targets[0]
+                a = t.node.args
+                if a.vararg is not None or a.posonlyargs:
+                    continue
+                names = [x.arg for x in a.args]
+                bound = t.cls is not None and not t.is_static and t.parent is None
+                if bound and names:
+                    names = names[1:]
+                while call.keywords and len(call.args) < len(names) and call.keywords[0].arg == names[len(call.args)] and (f.qualname, cname, call.keywords[0].arg) not in base:
+                    k = call.keywords.pop(0)
+                    call.args.append(k.value)
+                    self.positionalised.append((f.qualname, cname, k.arg))
+        self._calls_cache.clear() if hasattr(self, "_calls_cache") else None
 
     def _propagate_new_aliases(self):
         """`v = <name>.<attr>...` introduced after the pinned inventory (baseline_functions.json, key "aliases") is
